@@ -170,6 +170,24 @@ SetRefusesMalformed ==
           (ev'.a[4] = 1 \/ ev'.a[1] = 0 \/ ev'.a[2] > ev'.a[1] \/ ev'.a[3] > ev'.a[2]))]_<<vars, ev>>
 
 ---------------------------------------------------------------------------
+(* Unbounded capacities: ByteBufferAbs.tla keeps only the three counters; Apalache shows offset <= used <= size
+   inductive there for every capacity and operand.  This property ties it to the present module: every step
+   of ByteBuffer is a step of the abstraction with the same operands (checked by TLC on the bounded model). *)
+Abs == INSTANCE ByteBufferAbs WITH size <- size, used <- Len(filled), offset <- offset
+RefinesAbs ==
+    [][CASE ev'.op \in {"set"} -> (IF Refused(ev') THEN UNCHANGED vars ELSE Abs!Set(ev'.a[1], ev'.a[2], ev'.a[3]))
+         [] ev'.op = "space" -> (IF Refused(ev') THEN UNCHANGED vars ELSE Abs!Set(ev'.a[1], 0, 0))
+         [] ev'.op = "use" -> (IF Refused(ev') THEN UNCHANGED vars ELSE Abs!Set(ev'.a[1], ev'.a[1], 0))
+         [] ev'.op = "add" -> Abs!Add(ev'.a[1])
+         [] ev'.op = "consume" -> Abs!Consume(ev'.a[1])
+         [] ev'.op = "consume_at_most" -> Abs!ConsumeAtMost(ev'.a[1])
+         [] ev'.op = "rewind" -> (IF Refused(ev') THEN UNCHANGED vars ELSE Abs!Rewind)
+         [] ev'.op \in {"clear", "reset"} -> Abs!Empty
+         [] ev'.op = "repeat" -> Abs!Repeat
+         [] ev'.op = "null" -> size' = 0 /\ filled' = <<>> /\ offset' = 0
+         [] OTHER -> UNCHANGED vars]_<<vars, ev>>
+
+---------------------------------------------------------------------------
 (* E1 plumbing *)
 Key == ToString(<<valid, size, filled, offset>>)
 View == vars
